@@ -174,6 +174,9 @@ pub fn translate(spec: &Spec, f_sig: &Signature, body: &Block, sigs: &BTreeMap<S
     // "locals" kernels always yield an option: None = the function returned before the locals existed
     let wrap = spec.locals.is_some();
     for monadic in [false, true] {
+        if spec.force_monadic && !monadic {
+            continue;
+        }
         match translate_mode(spec, f_sig, body, sigs, monadic, wrap, info) {
             Err(TErr::NeedMonad) => continue,
             r => return r,
